@@ -474,13 +474,8 @@ func c14BodyCases(lens []int) []c14Case {
 func TestVerif_C14_types(t *testing.T) {
 	r := verifmc.NewReport("C14", "types", "exploration")
 	defer r.Write()
-	dataLens := verifmc.Pick([]int{0, 1, 64}, []int{0, 1, 63, 64, 16384})
 	maxDigest := verifmc.Pick(2, 3)
-	menu := ref.C14ItemMenu(verifmc.Pick([]int{0, 1, 64}, []int{0, 1, 64}))
-	if verifmc.Thorough() {
-		// long data only in digests of length <= 2 (kept in a second menu below)
-		_ = dataLens
-	}
+	menu := ref.C14ItemMenu([]int{0, 1, 64}) // thorough adds data lengths 63, 16383, 16384 in digests of length 2 (below)
 	r.Rule = fmt.Sprintf("headers: digests of length 0..%d over %d items (every specified kind x 3 engine ids x data lengths) x block numbers at every compact mode boundary within u32 x 2 hash patterns; "+
 		"a case is non-trivial when its (digest shape, number) or (type, value) differs; bodies of 0..2 extrinsics; every BABE pre-digest, BABE/GRANDPA consensus digest and GRANDPA vote type over boundary field values; "+
 		"each value: real encoding vs reference bytes, reference bytes decoded and compared with the description, Hash vs BLAKE2b-256 of the reference bytes", maxDigest, len(menu))
